@@ -21,17 +21,17 @@
 (*           after the queue lifetime: counts as permanent)                *)
 (*  fl[<<c,d>>] in flight: delivery number d on channel c -> <<n, i>>      *)
 (***************************************************************************)
-EXTENDS Integers, Sequences, FiniteSets, TLC
+EXTENDS Integers, Sequences, FiniteSets, TLC, Bounce
 CONSTANTS NMAX          \* message numbers are 1..NMAX (renumbered by first appearance)
 
 BlankMsg == [alive |-> FALSE, seen |-> FALSE, s |-> 0, rc |-> <<>>, prepped |-> FALSE, birth |-> 0, recs |-> <<>>, bounced |-> {}, bq |-> FALSE,
              lostnote |-> FALSE, chgone |-> <<FALSE, FALSE>>, bgone |-> TRUE, isbounce |-> FALSE, form |-> "", base |-> 0, todo |-> FALSE]
 InitMon == [msgs |-> [n \in 1..NMAX |-> BlankMsg], fl |-> {}, conc |-> <<0, 0>>, ann |-> <<0, 0>>, crashed |-> FALSE, lossy |-> FALSE,
             now |-> 0, term |-> FALSE, alrm |-> 0, dead |-> <<FALSE, FALSE>>, life |-> 604800, up |-> FALSE, lastcrash |-> 0,
-            eidx |-> 0, didx |-> 0, dbto |-> 0, seq |-> 0]
+            eidx |-> 0, didx |-> 0, dbto |-> 0, seq |-> 0, faulted |-> FALSE]
 
-Min(a, b) == IF a < b THEN a ELSE b
-Limit(st, c) == Min(st.conc[c + 1], st.ann[c + 1])
+MinI(a, b) == IF a < b THEN a ELSE b
+Limit(st, c) == MinI(st.conc[c + 1], st.ann[c + 1])
 InFlightOn(st, c) == {f \in st.fl : f[1] = c}
 SeqToBag(s) == [x \in {s[i] : i \in 1..Len(s)} |-> Cardinality({i \in 1..Len(s) : s[i] = x})]
 RecIdx(m, c, a) == {i \in 1..Len(m.recs) : m.recs[i].c = c /\ m.recs[i].a = a}
@@ -59,7 +59,7 @@ Step(st0, e, strict) ==
   IN
   CASE e.op = "start" ->
          R([st EXCEPT !.conc = <<e.conc[1], e.conc[2]>>, !.ann = <<e.announce[1], e.announce[2]>>, !.fl = {}, !.term = FALSE,
-                      !.dead = <<FALSE, FALSE>>, !.up = TRUE, !.eidx = e.s, !.didx = e.d, !.dbto = e.a, !.life = IF e.extra > 0 THEN e.extra ELSE st.life], "")
+                      !.dead = <<FALSE, FALSE>>, !.up = TRUE, !.eidx = e.s, !.didx = e.d, !.dbto = e.a, !.life = e.pos], "")
     [] e.op = "accept" ->
          IF n \notin 1..NMAX THEN R(st, "")
          ELSE IF m.alive THEN R(st, "C02:MessageNumberSharedByTwoMessages")
@@ -99,7 +99,7 @@ Step(st0, e, strict) ==
                      mm == st.msgs[f[3]]
                      rec == mm.recs[f[4]]
                      cls == IF e.k = "Z" /\ rec.tatt > mm.birth + st.life THEN "E" ELSE e.k
-                 IN IF e.k = "K" /\ rec.kc >= 1 /\ ~st.crashed THEN R(st, "C04:RecipientDeliveredTwiceWithoutCrash")
+                 IN IF e.k = "K" /\ rec.kc >= 1 /\ ~st.crashed /\ ~st.faulted THEN R(st, "C04:RecipientDeliveredTwiceWithoutCrash")
                     ELSE R([st EXCEPT !.fl = st.fl \ {f}, !.msgs[f[3]].recs[f[4]].fl = FALSE, !.msgs[f[3]].recs[f[4]].last = cls,
                                       !.msgs[f[3]].recs[f[4]].kc = rec.kc + (IF e.k = "K" THEN 1 ELSE 0)], "")
     [] e.op = "mark" ->
@@ -129,12 +129,15 @@ Step(st0, e, strict) ==
                   named == {e.names[i] : i \in 1..Len(e.names)}
               IN IF strict /\ ~(failed \subseteq named) /\ ~m.lostnote THEN R(st, "C14:FailedRecipientNotNamedInBounce")
                  ELSE IF strict /\ ~(named \subseteq {m.recs[i].a : i \in 1..Len(m.recs)}) THEN R(st, "C14:BounceNamesForeignRecipient")
-                 ELSE IF strict /\ Len(e.names) # Cardinality(named) THEN R(st, "C14:RecipientNamedTwiceInBounce")
+                 ELSE IF strict /\ ~st.crashed /\ Len(e.names) # Cardinality(named) THEN R(st, "C14:RecipientNamedTwiceInBounce")
                  ELSE IF e.extra # 1 THEN R(st, "C14:BounceNotToExactlyOneRecipient")
                  ELSE IF m.form = "dbl" THEN R(st, "C14:FailingDoubleBounceNotDiscarded")
                  ELSE IF m.form \in {"plain", "verp"} /\ ~(e.s = st.eidx /\ e.to = m.base) THEN R(st, "C14:BounceNotToEnvelopeSenderWithEmptySender")
                  ELSE IF m.form = "empty" /\ ~(e.s = st.didx /\ e.to = st.dbto) THEN R(st, "C14:DoubleBounceNotToPostmasterWithSpecialSender")
-                 ELSE R([st EXCEPT !.msgs[n].bounced = m.bounced \cup named, !.msgs[n].bq = TRUE], "")
+                 ELSE LET bytesOf(a) == LET hit == {i \in 1..Len(e.atab) : e.atab[i][1] = a} IN IF hit = {} THEN <<>> ELSE e.atab[Pick(hit)][2]
+                          nv == IF e.b = <<>> \/ m.lostnote THEN "" ELSE NoticeVerdict(e.b, {bytesOf(a) : a \in failed}, e.pfx, st.crashed)
+                      IN IF nv # "" THEN R(st, "C14:" \o nv)
+                         ELSE R([st EXCEPT !.msgs[n].bounced = m.bounced \cup (IF e.b = <<>> THEN named ELSE failed \cup named), !.msgs[n].bq = TRUE], "")
     [] e.op = "rmbounce" ->
          IF ~m.alive THEN R(st, "")
          ELSE IF m.form = "dbl"          \* the documented discard of a failing double bounce
@@ -176,8 +179,8 @@ Step(st0, e, strict) ==
          ELSE R(st, "")
     [] e.op = "spawnerdied" -> R([st EXCEPT !.dead[e.c + 1] = TRUE], "")
     [] e.op = "sendexit" -> R([st EXCEPT !.up = FALSE, !.fl = {}], "")
-    [] e.op = "fault" -> \* after an injected failure the retry schedule may legitimately be SLEEP_SYSFAIL based
-         R([st EXCEPT !.msgs = [k \in 1..NMAX |-> [st.msgs[k] EXCEPT !.recs = [i \in 1..Len(st.msgs[k].recs) |-> [st.msgs[k].recs[i] EXCEPT !.free = FALSE]]]]], "")
+    [] e.op = "fault" -> \* after an injected failure the retry schedule may legitimately be SLEEP_SYSFAIL based, and a mark may not have been written
+         R([st EXCEPT !.faulted = TRUE, !.msgs = [k \in 1..NMAX |-> [st.msgs[k] EXCEPT !.recs = [i \in 1..Len(st.msgs[k].recs) |-> [st.msgs[k].recs[i] EXCEPT !.free = FALSE]]]]], "")
     [] e.op = "quiet" ->
          \* C16 / C15 at a quiescent point: the daemon is blocked in select with time-out e.tmo (-1: not in select)
          IF ~st.up \/ st.term \/ e.k # "parked" \/ e.tmo < 0 THEN R(st, "")
